@@ -46,6 +46,9 @@ func wrongFrame(t *rapid.T, lo, hi uint32) uint32 {
 
 func prop(t *rapid.T) {
 	sc := dagen.GenScenario(t, 2, dagen.Params{MinEvents: 25, MaxEvents: 100, Forks: dagen.MinorityFork, NonMaxFrames: true})
+	// in half of the cases event IDs do not depend on the claimed frame (as with the repository's test events)
+	opaqueIDs := rapid.Bool().Draw(t, "idsDoNotDependOnTheFrame")
+	sameIDRejections := 0
 	cfgs := cons.Configs()
 	cfgClean := cfgs[rapid.IntRange(0, len(cfgs)-1).Draw(t, "cfgClean")]
 	cfgDirty := cfgs[rapid.IntRange(0, len(cfgs)-1).Draw(t, "cfgDirty")]
@@ -130,7 +133,17 @@ func prop(t *rapid.T) {
 					}
 				} else {
 					wf := wrongFrame(t, tgt.Lo, tgt.Hi)
-					if err := dirty.L.Process(ref.DagEvent(tgt, wf)); err != abft.ErrWrongFrame {
+					bad := ref.DagEvent(tgt, wf)
+					if opaqueIDs && kind == "upcoming" {
+						// IDs are opaque to the library: here the copy with the wrong claim carries the very ID under
+						// which the event will be submitted with its right frame later
+						var tail [24]byte
+						good := ref.DagEvent(tgt, tgt.Frame).ID()
+						copy(tail[:], good[8:])
+						bad.SetID(tail)
+						sameIDRejections++
+					}
+					if err := dirty.L.Process(bad); err != abft.ErrWrongFrame {
 						fail("dirty instance: Process(%s by v%d parents %v claiming frame %d, allowed %d..%d) = %v, want ErrWrongFrame", kind, tgt.Creator, tgt.Parents, wf, tgt.Lo, tgt.Hi, err)
 					}
 					rejected++
@@ -190,6 +203,9 @@ func prop(t *rapid.T) {
 		}
 	}
 	classes := []string{"cfg_dirty_" + cfgDirty.Name}
+	if sameIDRejections > 0 {
+		classes = append(classes, "rejected_copy_with_the_id_of_the_later_valid_event")
+	}
 	if burstBeforeDecision > 0 {
 		classes = append(classes, "burst_right_before_deciding_event")
 	}
